@@ -12,6 +12,44 @@ CLAIMS = {
         "note": "slices <= 16 bytes; Kani/CBMC toolchain trusted; representation invariant = exact image of the constructors",
         "technique": BMC,
     },
+    "C08": {
+        "text": "For every remaining length (any u64) and every input/output window up to 16 symbolic bytes, one read step of a "
+                "length-delimited / close-delimited / absent body satisfies the property's clauses (min-of-three resp. min-of-two, "
+                "verbatim, nothing beyond the count consumed, complete iff N delivered); flow-level readiness and the must-close "
+                "mark are decided on Flow<RecvBody>::can_proceed and Flow<RecvResponse>::proceed from constructed states.",
+        "design_ref": "DESIGN.md §3 C08",
+        "note": "windows <= 16 bytes; one inductive step; Kani/CBMC toolchain trusted",
+        "technique": BMC,
+    },
+    "C03": {
+        "text": "Lemma + composite: (a) the real write_chunk is shown, for every input length 1..=10300 and every free space "
+                "0..=10300, to emit exactly one non-empty, fitting, maximal chunk of wire size hexlen+len+4 or nothing at all when "
+                "fewer than 6 bytes are free, and on small buffers (symbolic payload) to emit exactly lower-hex CRLF data CRLF; "
+                "(b) the real BodyWriter::write / Call::write chunk loop, terminator and finished flag are checked for every "
+                "in,out <= 30808 with write_chunk replaced by that contract.",
+        "design_ref": "DESIGN.md §3 C03",
+        "note": "assume-guarantee: the composite trusts the contract, which the lemma harnesses of the same run prove on the real "
+                "function; count lemmas replace <Writer as io::Write>::write by its cursor-advance abstraction (std Cursor trusted)",
+        "technique": "bounded model checking of the real code (Kani/CBMC): assume-guarantee decomposition (unit lemma + caller with contract stub), single inductive step",
+    },
+    "C18": {
+        "text": "E2: the MIR of calculate_max_input is translated to SMT-LIB on every run and cvc5/z3 show, for ALL 2^64 values "
+                "of n, that it never panics, never exceeds n and never decreases; E1: for every n <= 30808 a single chunked "
+                "BodyWriter::write of calculate_max_input(n) bytes into n bytes consumes all of it (real loop and formula, "
+                "write_chunk by proven contract); sized bodies: Flow::calculate_max_input returns n and C04 gives full consumption.",
+        "design_ref": "DESIGN.md §3 C18",
+        "note": "E2 unbounded in n (translator validated against the real function on 34 points per run); 'fits' bounded by n <= 30808",
+        "technique": "SMT solving of a MIR->SMT-LIB translation (cvc5 bv-as-int + z3 Int, cross-checked) plus bounded model checking (Kani/CBMC) of the writer with a contract stub",
+        "engine": "mir2smt + kani-cbmc",
+    },
+    "C19": {
+        "text": "The chunk lemma proves on the real write_chunk that a chunk is emitted whenever 6 bytes are free and that it is the "
+                "largest fitting chunk; the composite shows for all in,out <= 30808 that a body write consumes >= 1 byte when 6 bytes "
+                "are free, >= min(in, advertised max), and (two executions) that more input never reduces progress; sized bodies by the C04 step.",
+        "design_ref": "DESIGN.md §3 C19",
+        "note": "as C03; termination of the caller's loop follows by induction on the remaining input (paper argument)",
+        "technique": "bounded model checking of the real code (Kani/CBMC): assume-guarantee decomposition, two-execution (relational) harness for monotonicity",
+    },
 }
 
 PENDING = "check not built yet in this session (planned, see DESIGN.md §3); nothing is claimed"
